@@ -934,6 +934,12 @@ fn chunkings(n: usize, b: usize, full_compositions_upto: usize, ones_upto: usize
         }
     }
     push(Chunking::Every(7), "every7".into(), &mut out);
+    if n > 30_000 {
+        // chunk sizes at which a growing collection buffer is re-allocated between chunks
+        for k in [8_192usize, 10_923, 16_384, 20_000] {
+            push(Chunking::Every(k), format!("every{k}"), &mut out);
+        }
+    }
     if n > 2049 {
         push(Chunking::Every(2049), "every2049".into(), &mut out);
         push(Chunking::Every(2048), "every2048".into(), &mut out);
@@ -969,13 +975,20 @@ pub fn enumerate(tier: &str) -> Vec<Case12> {
     let full_upto = if thorough { 16 } else { 10 };
     let ones_upto = if thorough { 16_384 } else { 4_096 };
     let mut cases = Vec::new();
+    // limits above the 32 KiB initial allocation of the collecting buffers (non-multipart only)
+    let big_limits: &[usize] = &[32_769, 50_000];
     for ext in Ext::ALL {
-        for &limit in limits {
+        for &limit in limits.iter().chain(big_limits.iter()) {
+            let big = limit > 30_000;
+            if big && ext.is_mp() {
+                continue;
+            }
             if (matches!(ext, Ext::MpTextField | Ext::MpBytesField) || ext.is_mp_repeated()) && !MP_FIELD_LIMITS.contains(&limit) {
                 continue;
             }
-            for len in lens_for(limit) {
-                let codings: Vec<Coding> = if ext.decompresses() && (thorough || limit == 8 || limit == 64) {
+            let lens = if big { vec![limit - 1, limit, limit + 1, limit + limit / 5] } else { lens_for(limit) };
+            for len in lens {
+                let codings: Vec<Coding> = if ext.decompresses() && !big && (thorough || limit == 8 || limit == 64) {
                     Coding::ALL.to_vec()
                 } else {
                     vec![Coding::Identity]
@@ -1012,6 +1025,9 @@ pub fn enumerate(tier: &str) -> Vec<Case12> {
                             v
                         };
                         for (chunking, shape) in chs {
+                            if big && (shape.starts_with("ones") || shape == "every7") {
+                                continue;
+                            }
                             let multi = chunking.lens(n).len() > 1;
                             for pending in [false, true] {
                                 if pending && !multi && n > 64 {
